@@ -1,6 +1,7 @@
 import QP.Model.PT
 import QP.Proofs.PTExistC
 import QP.Proofs.PTTop2
+import QP.Proofs.PTExistTable
 /-! `create_program` succeeds ⇒ the template denotes a pulse (well-formed fragment). -/
 namespace QP.PT
 
@@ -39,5 +40,41 @@ theorem createProgram_exists_basic {pt : PT} (hb : BasicE pt) (params : List (St
   refine ⟨P, ?_⟩
   simp only [denoteTop]
   exact bind_ok.mpr ⟨ctx, hctx, hP⟩
+
+/-- the well-formed fragment for which existence is proved: constant, table, point templates and function templates
+whose expression is affine in `t` and cannot fail by itself (no unsupported function, no negative power), composed by
+sequencing, repetition, indexed iteration and mapping -/
+inductive Stage2E : PT → Prop
+  | const {id dur amps meas} : Stage2E (.const id dur amps meas)
+  | func {id ch dur e meas cons} : e.affineIn "t" = true → e.safe = true → Stage2E (.func id ch dur e meas cons)
+  | table {id entries meas cons} : Stage2E (.table id entries meas cons)
+  | point {id chans entries meas cons} : Stage2E (.point id chans entries meas cons)
+  | seq {id subs meas cons} : (∀ p ∈ subs, Stage2E p) → Stage2E (.seq id subs meas cons)
+  | rep {id body count meas cons} : Stage2E body → Stage2E (.rep id body count meas cons)
+  | forLoop {id body idx start stop step meas cons} : Stage2E body →
+      Stage2E (.forLoop id body idx start stop step meas cons)
+  | mapping {id body pm mm cm cons} : Stage2E body → Stage2E (.mapping id body pm mm cm cons)
+
+theorem Stage2E.basicE {pt : PT} (h : Stage2E pt) : BasicE pt := by
+  induction h with
+  | const => exact BasicE.const (atomOK_of_buildOK (buildOK_const _ _ _ _)) (atomEx_const _ _ _ _)
+  | func ha hs => exact BasicE.func (atomOK_of_buildOK (buildOK_func _ _ _ _ _ _)) (atomEx_func _ _ _ _ _ _ ha hs)
+  | table => exact BasicE.table (atomOK_of_buildOK (buildOK_table _ _ _ _)) (atomEx_table _ _ _ _)
+  | point => exact BasicE.point (atomOK_of_buildOK (buildOK_point _ _ _ _ _)) (atomEx_point _ _ _ _ _)
+  | seq _ ih => exact BasicE.seq ih
+  | rep _ ih => exact BasicE.rep ih
+  | forLoop _ ih => exact BasicE.forLoop ih
+  | mapping _ ih => exact BasicE.mapping ih
+
+theorem Stage2E.stage2 {pt : PT} (h : Stage2E pt) : Stage2 pt := by
+  induction h with
+  | const => exact Stage2.atom (AtomTreeP.base AtomTree.const)
+  | func _ _ => exact Stage2.atom (AtomTreeP.base AtomTree.func)
+  | table => exact Stage2.atom (AtomTreeP.base AtomTree.table)
+  | point => exact Stage2.atom (AtomTreeP.base AtomTree.point)
+  | seq _ ih => exact Stage2.seq ih
+  | rep _ ih => exact Stage2.rep ih
+  | forLoop _ ih => exact Stage2.forLoop ih
+  | mapping _ ih => exact Stage2.mapping ih
 
 end QP.PT
